@@ -56,11 +56,14 @@ def fitSet (l : List MRow) (j : Nat) : List Nat :=
 section
 variable {F : Type} [Mul F] [Div F] [NatCast F]
 
+/-- NaN-propagating multiplication -/
+def optMul (x y : Option F) : Option F :=
+  match x, y with
+  | some a, some b => some (a * b)
+  | _, _ => none
+
 /-- NaN-propagating product, in the order pandas multiplies: `((1 * x₀) * x₁) * …` -/
-def optProd (xs : List (Option F)) : Option F :=
-  xs.foldl (fun acc x => match acc, x with
-    | some a, some b => some (a * b)
-    | _, _ => none) (some ((1 : Nat) : F))
+def optProd (xs : List (Option F)) : Option F := xs.foldl optMul (some ((1 : Nat) : F))
 
 def chain (vars : List Nat) (d : Nat → Nat → Option F) (i : Nat) : Option F := optProd (vars.map fun j => d j i)
 
@@ -72,9 +75,19 @@ def weight (stab : Bool) (vars : List Nat) (last : Nat) (n d : Nat → Nat → O
     | _, _ => none
   else none
 
+/-- which path `regression_models` takes, per row: the overall-uniform collapse to the first variable, or
+    the chain over the fitted variables with the last variable deciding who is observed -/
+def rowWeight (l : List MRow) (k : Nat) (stab : Bool) (n d : Nat → Nat → Option F) (r : MRow) : Option F :=
+  if overallUniform l k then weight stab [0] 0 n d r
+  else weight stab (fitted l k) (k - 1) n d r
+
+/-- the denominator models that are fitted, in call order, each with the ids of the rows it is fitted on -/
+def plan (l : List MRow) (k : Nat) : List (Nat × List Nat) :=
+  if overallUniform l k then [(0, fitSet l 0)] else (fitted l k).map fun j => (j, fitSet l j)
+
 structure Out (F : Type) where
   weights : List (Option F)          -- `IPMW.Weight`, in frame order
-  plan : List (Nat × List Nat)       -- (variable, fitting row ids) per fitted denominator model, in call order
+  plan : List (Nat × List Nat)
 
 /-- `IPMW(df, [V₀..V_{k-1}], stabilized, monotone=True).regression_models(...); .fit()`.
     `k = 1` is also the single-variable (string) call. -/
@@ -83,11 +96,7 @@ def ipmw (l : List MRow) (k : Nat) (stab : Bool) (n d : Nat → Nat → Option F
   -- `__init__`: every listed variable must have at least one NaN
   else if (List.range k).any (fun j => l.all (obsAt · j)) then .error .badInput
   else if monotoneReject l k then .error .badInput
-  else if overallUniform l k then
-    .ok ⟨l.map (weight stab [0] 0 n d), [(0, fitSet l 0)]⟩
-  else
-    let vars := fitted l k
-    .ok ⟨l.map (weight stab vars (k - 1) n d), vars.map fun j => (j, fitSet l j)⟩
+  else .ok ⟨l.map (rowWeight l k stab n d), plan l k⟩
 
 end
 end ZV.Ipmw
